@@ -99,6 +99,9 @@ def gen(seed, tier):
             d = r.choice(srcs)
             fault = {"type": "stalled_source", "node": d, "chunk": r.randrange(len(nb[d]["bounds"]) - 1)}
             w["cfg"]["timeout"] = 300
+            # (not in multiprocessing mode: ParallelSourcePlugin.input_timeout is 300 s, not below the mailbox
+            # timeout, so which timeout fires first is a configuration matter, not a property of the code)
+            w["cfg"].pop("allow_multiprocess", None)
     if fault is None:
         fault = {"type": "consumer_close", "after": r.choice([0, 1, 2])}
     w["fault"] = fault
